@@ -293,23 +293,23 @@ def pre_slice_index(an, st, t, args):
     lent = ("len", s)
     if rb is None:
         r = an.range_of(st, idx)
-        if r[1] < ln[0] or ("lt", idx, lent) in st.rel:
+        if r[1] < ln[0] or ("lt", idx, lent) in st.rel or an.le(st, idx, lent, strict=True):
             return True, "index %s < len %s" % (r, ln)
         return False, "index in %s, length in %s" % (r, ln)
     start, end, incl = rb
     if end is not None:
         re_ = an.range_of(st, end)
         lim = ln[0] - (1 if incl else 0)
-        if not (re_[1] <= lim or ("le", end, lent) in st.rel or (not incl and ("lt", end, lent) in st.rel)):
+        if not (re_[1] <= lim or ("le", end, lent) in st.rel or (not incl and ("lt", end, lent) in st.rel) or an.le(st, end, lent, strict=incl)):
             return False, "range end in %s, length in %s" % (re_, ln)
     if start is not None:
         rs = an.range_of(st, start)
         if end is not None:
             re_ = an.range_of(st, end)
-            if not (rs[1] <= re_[0] or ("le", start, end) in st.rel or ("lt", start, end) in st.rel):
+            if not (rs[1] <= re_[0] or ("le", start, end) in st.rel or ("lt", start, end) in st.rel or an.le(st, start, end)):
                 return False, "range start in %s may exceed end in %s" % (rs, re_)
         else:
-            if not (rs[1] <= ln[0] or ("le", start, lent) in st.rel or ("lt", start, lent) in st.rel):
+            if not (rs[1] <= ln[0] or ("le", start, lent) in st.rel or ("lt", start, lent) in st.rel or an.le(st, start, lent)):
                 return False, "range start in %s, length in %s" % (rs, ln)
     return True, "range within length %s" % (ln,)
 
@@ -328,7 +328,7 @@ def pre_copy_from_slice(an, st, t, args):
 def pre_split_at(an, st, t, args):
     ln = _len_of(an, st, args[0])
     m = an.range_of(st, args[1])
-    if m[1] <= ln[0] or ("le", args[1], ("len", args[0])) in st.rel:
+    if m[1] <= ln[0] or ("le", args[1], ("len", args[0])) in st.rel or an.le(st, args[1], ("len", args[0])):
         return True, "mid %s <= len %s" % (m, ln)
     return False, "mid in %s, length in %s" % (m, ln)
 
